@@ -19,12 +19,15 @@ pub struct MemFile {
     pub nwrites: u64,
     pub fault: Option<(u64, usize)>,
     pub failing: bool,
+    /// every write call accepts at most this many bytes (like a tokio file: 2 MiB; a socket: whatever fits): the rest
+    /// has to be offered again by the caller
+    pub short: Option<usize>,
     seek_result: u64,
 }
 
 impl MemFile {
     pub fn new(data: Vec<u8>, fault: Option<(u64, usize)>) -> Self {
-        Self { data, pos: 0, trace: vec![], nwrites: 0, fault, failing: false, seek_result: 0 }
+        Self { data, pos: 0, trace: vec![], nwrites: 0, fault, failing: false, short: None, seek_result: 0 }
     }
     fn store(&mut self, buf: &[u8]) {
         let off = self.pos as usize;
@@ -36,7 +39,12 @@ impl MemFile {
             self.data.resize(end, 0);
         }
         self.data[off..end].copy_from_slice(buf);
-        self.trace.push(Tev::Write(self.pos, buf.to_vec()));
+        // the pieces of one logical write (short writes completed by the caller) are recorded as one write
+        let merged = match (self.short, self.trace.last_mut()) {
+            (Some(_), Some(Tev::Write(o, d))) if *o + d.len() as u64 == self.pos => { d.extend_from_slice(buf); true }
+            _ => false,
+        };
+        if !merged { self.trace.push(Tev::Write(self.pos, buf.to_vec())); }
         self.pos = end as u64;
     }
     pub fn trace_str(&self) -> String {
@@ -91,6 +99,15 @@ impl AsyncWrite for MemFile {
                 }
                 return Poll::Ready(Ok(t));
             }
+        }
+        if let Some(k) = me.short {
+            let k = k.max(1).min(buf.len());
+            // (the write counter counts logical writes: the first piece of each)
+            let cont = matches!(me.trace.last(), Some(Tev::Write(o, d)) if *o + d.len() as u64 == me.pos);
+            if !cont { me.nwrites += 1; }
+            let part = buf[..k].to_vec();
+            me.store(&part);
+            return Poll::Ready(Ok(k));
         }
         me.nwrites += 1;
         me.store(buf);
